@@ -46,10 +46,17 @@ fn one(inp: &Input, mask: &Option<Vec<bool>>) -> (String, String) {
         return (String::new(), format!("LOWDIM {} {}", r1 as u8, r2 as u8));
     }
     let n_active = vi.cells_iter().count();
-    let wf = vi.with_faces();
+    // a panic while the faces are derived (or read) is this property's business, a panic of the construction is C05's
+    let wf = match guarded(std::panic::AssertUnwindSafe(move || vi.with_faces())) {
+        Ok(w) => w,
+        Err(e) => return (String::new(), format!("WFPANIC {}", e)),
+    };
     let mut s = format!("OK NC {}", n_active);
     let mut du = format!(" DU {}", n_active);
     for c in wf.cells_iter() {
+        if let Err(e) = guarded(std::panic::AssertUnwindSafe(|| cell_tokens(c))) {
+            return (String::new(), format!("WFPANIC {}", e));
+        }
         du.push_str(&format!(" {} {}", c.clipping_planes.len(), c.vertices.len()));
         for v in &c.vertices {
             du.push_str(&format!(" {} {} {}", v.dual[0], v.dual[1], v.dual[2]));
